@@ -1020,19 +1020,21 @@ def tier_c(run, thorough):
                  'all-inputs', function='geodesic_transform')
     bd.done()
     bds.append(bd)
-    bd = Bounded(run, 'C17/geodesic-nonzero-edges', 'C17/geodesic_transform/oracle/guard-shortest-paths-modulo-zero-edges',
-                 'regression guard (not the property, see finding F3): ALL non-constant weak orders of 3 and 6 entries in stacks '
-                 'of 3; plus %d seeded stacks (1-3 RDMs, 3-8 conditions, with / without ties)' % (150 if thorough else 40),
+    # (the regression guard C17/geodesic-nonzero-edges that pinned the behaviour modulo the lost zero-weight edges was dropped
+    #  when finding F3 was repaired in /repo 460a14c7; its enumerated domain now runs under the literal clause)
+    bd = Bounded(run, 'C17/geodesic-enumerated', 'C17/geodesic_transform/oracle/shortest-paths-without-maximal-edges',
+                 'literal clause on ALL non-constant weak orders of 3 and 6 entries in stacks of 3; plus %d seeded stacks '
+                 '(1-3 RDMs, 3-8 conditions, with / without ties)' % (150 if thorough else 40),
                  exhaustive=True, function='geodesic_transform')
     i = 0
     for n_cond, m in ((3, 3), (4, 6)):
         rows = [r for r in _weak_orders(m) if max(r) > 0]
         for st in _stacks(rows, 3, 31):
             i += 1
-            bd.check(orc_geodesic_guard, dict(n_cond=n_cond, rows=st, measure=MEASURES[i % len(MEASURES)],
-                                              desc=DESC_KINDS[i % len(DESC_KINDS)]), 'enumerated', function='geodesic_transform')
+            bd.check(orc_geodesic, dict(n_cond=n_cond, rows=st, measure=MEASURES[i % len(MEASURES)],
+                                        desc=DESC_KINDS[i % len(DESC_KINDS)]), 'enumerated', function='geodesic_transform')
     for seed in range(150 if thorough else 40):
-        bd.check(orc_geodesic_guard, dict(seed=seed, n_rdm=1 + seed % 3, n_cond=3 + seed % 6, ties=bool(seed % 2)),
+        bd.check(orc_geodesic, dict(seed=seed, n_rdm=1 + seed % 3, n_cond=3 + seed % 6, ties=bool(seed % 2)),
                  'seeded', function='geodesic_transform')
     bd.done()
     bds.append(bd)
